@@ -12,7 +12,25 @@ package state
 // rlp.Decode into an Account: outside the model (C14); only the decoded record is used.
 //@ effectfree bytes.NewReader
 
+// common.BytesToHash builds a Hash value from a byte slice: no effect on any modelled object
+//@ effectfree github.com/youchainhq/go-youchain/common.BytesToHash
+
 //@ func NewStateSync$1 props C19
+//@ modifies all, c19Kids, c19Known
+// dependency accounting (see /repo/trie/verif_contracts_c19.go): whatever the callback registers (0 to 3 children of the leaf's node, each through
+// AddSubTrie / AddRawEntry), for every request the difference deps - (registered child listings) is what it was — also when decoding fails.
+//@ let leafNode = syncer.requests[parent]
+// (stepping stones after each registration keep every proof step a two-link chain of congruences; their trigger is the ENTRY value of deps, a
+//  plain array: a trigger over the heap of a merged state is an ite term the solver never matches, engine_requests/C19.md #16)
+//@ assert after call (*trie.Sync).AddSubTrie: [deps-track-children-after-storage-trie] forall r: *trie.request :: { old(r.deps) } old(allocated(r)) ==> (r.deps - c19Kids[r]) % 2^64 == (old(r.deps) - old(c19Kids)[r]) % 2^64
+//@ assert after call (*trie.Sync).AddRawEntry#1: [deps-track-children-after-code] forall r: *trie.request :: { old(r.deps) } old(allocated(r)) ==> (r.deps - c19Kids[r]) % 2^64 == (old(r.deps) - old(c19Kids)[r]) % 2^64
+//@ assert after call (*trie.Sync).AddRawEntry#2: [deps-track-children-after-delegations] forall r: *trie.request :: { old(r.deps) } old(allocated(r)) ==> (r.deps - c19Kids[r]) % 2^64 == (old(r.deps) - old(c19Kids)[r]) % 2^64
+//@ ensures [decode-failure-registers-nothing] result != nil ==> c19Kids == old(c19Kids) && (old(allocated(leafNode)) ==> leafNode.deps == old(leafNode.deps))
+//@ assert before return#2: [deps-track-children-at-decode-failure] c19Kids == old(c19Kids) && (forall r: *trie.request :: { old(r.deps) } old(allocated(r)) ==> r.deps == old(r.deps))
+// (return#2 is the decode-failure return at sync.go:32. The relation is asserted after EACH registration — the last one on either path to
+//  `return nil` is the code entry or the delegations entry — instead of once more at `return nil` / as an `ensures`: over the merged state of the
+//  two paths that obligation needs 0.4-5 s and timed out with some solver seeds, and no caller consumes it — children, which invokes the callback,
+//  is not under a verified contract)
 //@ assert before call (*trie.Sync).AddSubTrie: [storage-trie-under-leaf-parent] a1 == obj.Root && a3 == parent && a4 == nil
 //@ assert before call (*trie.Sync).AddRawEntry#1: [code-under-leaf-parent] a3 == parent
 //@ assert before call (*trie.Sync).AddRawEntry#2: [delegations-under-leaf-parent] a3 == parent
